@@ -48,12 +48,15 @@ def _work(engine_name, verif_seed, indices, tier, chunk_timeout):
         eng = _import_engine(engine_name)
         out = []
         for i in indices:
+            t1 = time.time()
             try:
                 r = eng.run_one(verif_seed, i, tier)
             except Exception:
                 out.append({'index': i, 'harness': traceback.format_exc()[-1500:]})
                 continue
-            out.append(eng.summarise(r))
+            s = eng.summarise(r)
+            s['wall'] = round(time.time() - t1, 3)
+            out.append(s)
         return out
     finally:
         faulthandler.cancel_dump_traceback_later()
@@ -144,6 +147,8 @@ def main(engine_name, argv=None):
                     break
                 for f in done:
                     for s in f.result():
+                        if s.get('wall', 0) > agg.get('slowest', [0, 0])[0]:
+                            agg['slowest'] = [s['wall'], s['index']]
                         eng.aggregate(agg, s)
                     if time.time() < deadline and len(agg['violations']) < 8:
                         submit()
@@ -289,6 +294,7 @@ def _write_evidence(eng, prop, args, verif_seed, agg, wall, explore_s, harness):
     cov.setdefault('runs_per_hour', round(agg['runs'] / max(explore_s, 1e-9) * 3600))
     cov['run_indices'] = agg['indices']
     cov['workers'] = args.workers
+    cov['slowest_run_wall_s_and_index'] = agg.get('slowest')
     cov['selftest_determinism'] = agg.get('selftest')
     cov['known_findings_hit'] = agg.get('known_hits', [])
     cov['harness_failure'] = bool(harness)
